@@ -21,6 +21,7 @@
 from __future__ import annotations
 
 import copy
+import os
 import random as pyrandom
 
 import numpy as np
@@ -75,8 +76,15 @@ WITNESSES_PER_KEY = 4
 # ------------------------------------------------------------------------------------------------ generation
 def gen_cases(run):
     rng = run.rng
-    n_sim = run.n(170, 16 * 1500)
-    n_loader = run.n(30, 16 * 150)
+    n_sim = run.n(150, 16 * 1500)
+    n_loader = run.n(24, 16 * 150)
+    part = os.environ.get("KDV_C09_PART")       # development aid: run only one half of the check
+    if part == "loader":
+        for _ in range(n_loader):
+            yield _loader_case(rng)
+        return
+    if part == "sim":
+        n_loader = 0
     every = max(1, n_sim // max(1, n_loader))
     made_loader = 0
     for i in range(n_sim):
@@ -377,7 +385,22 @@ def _canon_run(batches):
 
 
 def evaluate_loader(run, spec):
+    """-> findings; coincidences of draws are re-observed under other torch seeds before they are reported (the 31-bit seeds
+    of get_rng_from_global collide by chance with 2^-31 per generator pair; a mechanism recurs)"""
+    findings = observe_loader(run, spec, 0)
+    out = [f for f in findings if not f.get("confirm")]
+    pending = [f for f in findings if f.get("confirm")]
+    for shift in (1, 2):
+        if not pending:
+            break
+        again = {f["key"] for f in observe_loader(run, spec, shift)}
+        pending = [f for f in pending if f["key"] in again]
+    return out + pending
+
+
+def observe_loader(run, spec, shift):
     top, W, B = spec["top"], spec["W"], spec["B"]
+    seeds = [spec["torch_seed"][0] + 7919 * shift, spec["torch_seed"][1] + 104729 * shift]
     _seed_globals(spec["build_seed"])
     col = _Collector()
     ok, built = call_real(col, lambda: S.build_stack(top, ship=True), crash_key="build-crash", what="building the probe stack")
@@ -386,7 +409,7 @@ def evaluate_loader(run, spec):
     kw = {"batch_size": B, "updates": 10 ** 6} if S.hook_kwargs_for(top) else {}
     parent = _parent_values(built.dataset)
     runs = []
-    for ts in (spec["torch_seed"][0], spec["torch_seed"][0], spec["torch_seed"][1]):
+    for ts in (seeds[0], seeds[0], seeds[1]):
         try:
             batches = S.run_loader(built, top, W, B, ts, kw)
         except Exception as e:  # noqa: BLE001
@@ -422,7 +445,7 @@ def evaluate_loader(run, spec):
     if _canon_run(runs[0]) != _canon_run(runs[1]):
         k = next((i for i, (a, b) in enumerate(zip(_canon_run(runs[0]), _canon_run(runs[1]))) if a != b), -1)
         findings.append({"key": "loader:not-reproducible", "place": None,
-                         "what": f"two passes over DataLoader(num_workers={W}, batch_size={B}) under torch.manual_seed({spec['torch_seed'][0]}) "
+                         "what": f"two passes over DataLoader(num_workers={W}, batch_size={B}) under torch.manual_seed({seeds[0]}) "
                                  f"differ (first at batch {k})"})
     # 2. workers of one pass are disjoint, 3. nothing stems from the parent's generators
     for d, seeds, name in ((d1, seeds1, "pass 1"), (d3, seeds3, "pass 2")):
@@ -433,13 +456,13 @@ def evaluate_loader(run, spec):
                 common = set(d[wids[i]]) & set(d[wids[j]])
                 if common:
                     v = min(common)
-                    findings.append({"key": "loader:workers-share-draws", "place": d[wids[i]][v],
+                    findings.append({"key": "loader:workers-share-draws", "place": d[wids[i]][v], "confirm": True,
                                      "what": f"{name}: workers {wids[i]} (seed {seeds[wids[i]]}) and {wids[j]} (seed {seeds[wids[j]]}) both drew "
                                              f"{v} (probes {d[wids[i]][v]!r} / {d[wids[j]][v]!r}): {len(common)} shared draws"})
             stale = set(d[wids[i]]) & set(parent)
             if stale:
                 v = min(stale)
-                findings.append({"key": "loader:worker-draws-from-parent-stream", "place": d[wids[i]][v],
+                findings.append({"key": "loader:worker-draws-from-parent-stream", "place": d[wids[i]][v], "confirm": True,
                                  "what": f"{name}: worker {wids[i]} drew {v} at probe {d[wids[i]][v]!r}, a value of the parent's generator at "
                                          f"`stack{parent[v]}` (not overwritten by the hook)"})
     # 4. another torch seed -> other worker seeds -> disjoint from the first pass
@@ -450,8 +473,8 @@ def evaluate_loader(run, spec):
         common = set(a) & set(b)
         if common and not any(f["key"].startswith("loader:worker") for f in findings):
             v = min(common)
-            findings.append({"key": "loader:seed-independent-draws", "place": a[v],
-                             "what": f"passes under torch seeds {spec['torch_seed']} (worker seeds {sorted(seeds1.values())} / "
+            findings.append({"key": "loader:seed-independent-draws", "place": a[v], "confirm": True,
+                             "what": f"passes under torch seeds {seeds} (worker seeds {sorted(seeds1.values())} / "
                                      f"{sorted(seeds3.values())}) share {len(common)} draws, e.g. {v} at probe {a[v]!r}"})
     if findings:
         # name the mechanism with the census of a simulated run over the same stack
